@@ -336,6 +336,19 @@ class LeafConv(Conv):
         return v
 
 
+def _decide(val, want, known):
+    """True: the value is the documented one; False: it is another expression of the known quantities alone; None: it mentions something the
+    rule cannot place (the result of a call that was not followed, a member it does not know) - undecided, never a violation"""
+    if val.equals(want):
+        return True
+    marks = ("<uninitialised#", "<computed from uninitialised memory#")
+    for a in val.n.atoms() | val.d.atoms():
+        d = F.atom_desc(a)
+        if not (isinstance(d, tuple) and len(d) == 2 and d[0] == "s" and (d[1] in known or str(d[1]).startswith(marks))):
+            return None
+    return False
+
+
 def _initial(P, cv, ref):
     """scalar image of a freshly created array: zeros / full are their fill value, empty is a value of its own (nothing equals it)"""
     o = P.obj(ref)
@@ -367,6 +380,7 @@ def r5_documented_factors(ctx):
             ("d_dynamic", "EL"): -euf * duf * AV / K,
             ("d_static", "EL"): euf * suf * GF / K, ("d_static", "RF"): euf * suf * GF / K,
         }
+        known = {f"{sol}.{x}" for x in ("a", "v", "d", "pg")} | {"ruf", "euf", "duf", "suf", f"{save}['genforce']", f"{save}['avterm']", k, m, b, nrb}
         A = Agg(ctx)
         npg = 0
         seen, blind = set(), set()
@@ -461,13 +475,13 @@ def r5_documented_factors(ctx):
                     if val is None:
                         A.req(name_of(key), None, fn, "content not known")
                         continue
-                    ok = val.equals(want[key])
+                    ok = _decide(val, want[key], known)
                     A.req(name_of(key), ok, fn, None if ok else {"ends as": repr(val), "documented": repr(want[key])})
             pgv = o.fields.get("pg")
             if pgv is not None:
                 npg += 1
                 try:
-                    ok = cv0(pgv).equals(PG * suf)
+                    ok = _decide(cv0(pgv), PG * suf, known)
                 except Unsupported:
                     ok = None
                 A.req(f"{tag}: pg is scaled by suf", ok, fn, show(P.norm(pgv)))
@@ -494,7 +508,8 @@ def r5_documented_factors(ctx):
         ok = None
         if st:
             try:
-                ok = Conv(P)(st[0].value).equals(F.sym(f"{sol}.a") * F.sym("ruf") * F.sym("suf"))
+                ok = _decide(Conv(P)(st[0].value), F.sym(f"{sol}.a") * F.sym("ruf") * F.sym("suf"),
+                             {f"{sol}.a", f"{sol}.v", "ruf", "euf", "duf", "suf"})
             except Unsupported:
                 ok = None
         A.req("apply_uf: factor tuple order is (rigid, elastic, dynamic, static)", ok, st[0].node if st else fn)
@@ -559,6 +574,8 @@ def r5_documented_factors(ctx):
                     val = cv(e.value)
                     base = [s_ for s_ in (F.sym(n_) for n_ in _syms_of(P, e.value)) if True]
                     ok = any(val.equals(bx * w) for bx in base)
+                    if not ok and _decide(val, F.const(0), set(_syms_of(P, e.value)) | {f"uf{i}" for i in range(4)}) is None:
+                        ok = None
                 except Unsupported as ex:
                     ok = None
                 A.req(name, ok, e.node, show(P.norm(e.value)))
